@@ -2,6 +2,6 @@
 (set-logic ALL)
 (declare-const perm_Wallet1_Val_1 Bool)
 (assert perm_Wallet1_Val_1)
-(define-fun t509 () Bool (not perm_Wallet1_Val_1))
-(assert t509)
+(define-fun t468 () Bool (not perm_Wallet1_Val_1))
+(assert t468)
 (check-sat)
